@@ -15,7 +15,7 @@ Reading guide
 * per combinator: `…_dec_ok` (Lemmas/PayloadResave.lean), `stable_of_dec_ok`.
 * per class: `<class>_dec_encodable`, `<class>_resave_stable`.
 -/
-import PsdVerif.Lemmas.PayloadResave
+import PsdVerif.Lemmas.PayloadResave2
 import PsdVerif.Model.PayloadResaveTables
 import PsdVerif.Generated.C02Formats
 
@@ -85,5 +85,256 @@ theorem same_formats_accepting (reads writes : List String) (h : fmtPairSame rea
     subst h
     exact fmtAccepts_self r
   · cases h
+
+
+/-! ## the generic laws (Lemmas/PayloadResave.lean), per combinator -/
+
+/-- `dec_returns_encodable` for every codec that has `DecOK`: whatever the reader returns, `tobytes()` succeeds on -/
+theorem dec_returns_encodable {α : Type} (c : PCodec α) (h : DecOK c) (d : B) (p : Nat) (v : α) (p' : Nat)
+    (hd : c.dec d p = .ok (v, p')) : Encodable c v := h.encodable hd
+
+/-- the three clauses of the property for one payload follow from `DecOK` and C01's round-trip law -/
+theorem stable_of_dec_ok {α : Type} (c : PCodec α) (h : DecOK c) (hr : c.RtAtEnd) : Stable c := stable_of h hr
+theorem stable_of_dec_ok_if {α : Type} (c : PCodec α) (L : α → Prop) (h : DecOKIf c L) (hr : c.RtAtEnd) : StableIf c L :=
+  stableIf_of h hr
+
+theorem rec_dec_ok (fs : List FI) (hok : fs.all FI.ok = true) : DecOK (rec fs) := rec_decOK fs hok
+theorem seq_dec_ok {α β : Type} (a : PCodec α) (b : PCodec β) (ha : DecOK a) (hb : DecOK b) : DecOK (seq a b) := seq_decOK ha hb
+theorem counted_dec_ok {α : Type} (w : Nat) (c : PCodec α) (hc : DecOK c) : DecOK (counted w c) := counted_decOK w hc
+theorem exactly_dec_ok {α : Type} (n : Nat) (c : PCodec α) (hc : DecOK c) : DecOK (exactly n c) := exactly_decOK n hc
+theorem while_dec_ok {α : Type} (n pad : Nat) (c : PCodec α) (hc : DecOK c) : DecOK (whileR n pad c) := whileR_decOK n pad hc
+theorem padded_dec_ok {α : Type} (pad : Nat) (c : PCodec α) (hc : DecOK c) : DecOK (padded pad c) := padded_decOK pad hc
+theorem checked_dec_ok {α : Type} (c : PCodec α) (ok : α → Prop) [DecidablePred ok] (e : Err) (hc : DecOK c) :
+    DecOK (checked c ok e) := checked_decOK hc
+theorem tail_bytes_dec_ok : DecOK tailBytes := tailBytes_decOK
+theorem pascal_dec_ok (pw pr : Nat) : DecOK (pascal pw pr) := pascal_decOK pw pr
+theorem ustr_dec_ok : DecOK ustr := ustr_decOK
+theorem opt_tail_dec_ok {α : Type} (c : PCodec α) (hc : DecOK c) : DecOK (optTail c) := optTail_decOK hc
+/-- `blocked` is the one combinator with a derived length: the law holds under exactly that length hypothesis -/
+theorem blocked_dec_ok_if {α : Type} (w pad : Nat) (c : PCodec α) (L : α → Prop) (hc : DecOKIf c L) :
+    DecOKIf (blocked w pad c) (fun v => L v ∧ FitsU w (c.encT v).length) := blocked_decOKIf w pad hc
+theorem blocked_encodable_iff {α : Type} (w pad : Nat) (c : PCodec α) (v : α) (hf : c.Fits v) :
+    (blocked w pad c).Fits v ↔ FitsU w (c.encT v).length := blocked_fits_iff w pad v hf
+/-- the side-condition forms compose the same way -/
+theorem seq_dec_ok_if {α β : Type} (a : PCodec α) (b : PCodec β) (La : α → Prop) (Lb : β → Prop) (ha : DecOKIf a La)
+    (hb : DecOKIf b Lb) : DecOKIf (seq a b) (fun v => La v.1 ∧ Lb v.2) := seq_decOKIf ha hb
+theorem while_dec_ok_if {α : Type} (n pad : Nat) (c : PCodec α) (L : α → Prop) (hc : DecOKIf c L) :
+    DecOKIf (whileR n pad c) (fun vs => ∀ v ∈ vs, L v) := whileR_decOKIf n pad hc
+theorem counted_dec_ok_if {α : Type} (w : Nat) (c : PCodec α) (L : α → Prop) (hc : DecOKIf c L) :
+    DecOKIf (counted w c) (fun vs => ∀ v ∈ vs, L v) := counted_decOKIf w hc
+
+/-! ## per class: `<class>_dec_encodable` (whatever the class's reader returns is writable and in the domain of the round
+trip) and `<class>_resave_stable` (the three clauses). `…_partial`: under the side condition named in the statement - a
+descriptor key cut short by the end of the stream (`KeysFull`), C01's `chainOK` for the slices, or the length field of a
+re-encoded block. -/
+
+/-! ### unit 7: image-resource payloads -/
+
+theorem alpha_identifiers_dec_encodable : DecOK AlphaIdentifiers.codec := AlphaIdentifiers.decOK
+theorem alpha_identifiers_resave_stable : Stable AlphaIdentifiers.codec := stable_of AlphaIdentifiers.decOK AlphaIdentifiers.rt
+theorem alpha_names_pascal_dec_encodable : DecOK AlphaNamesPascal.codec := AlphaNamesPascal.decOK
+theorem alpha_names_pascal_resave_stable : Stable AlphaNamesPascal.codec := stable_of AlphaNamesPascal.decOK AlphaNamesPascal.rt
+theorem alpha_names_unicode_dec_encodable : DecOK AlphaNamesUnicode.codec := AlphaNamesUnicode.decOK
+theorem alpha_names_unicode_resave_stable : Stable AlphaNamesUnicode.codec := stable_of AlphaNamesUnicode.decOK AlphaNamesUnicode.rt
+theorem alpha_channel_dec_encodable : DecOK AlphaChannel.codec := AlphaChannel.decOK
+theorem alpha_channel_resave_stable : Stable AlphaChannel.codec := stable_of AlphaChannel.decOK AlphaChannel.rt.atEnd
+theorem display_info_dec_encodable : DecOK DisplayInfo.codec := DisplayInfo.decOK
+theorem display_info_resave_stable : Stable DisplayInfo.codec := stable_of DisplayInfo.decOK DisplayInfo.rt
+theorem resource_byte_dec_encodable : DecOK Byte.codec := Byte.decOK
+theorem resource_byte_resave_stable : Stable Byte.codec := stable_of Byte.decOK Byte.rt.atEnd
+theorem grid_guides_info_dec_encodable : DecOK GridGuidesInfo.codec := GridGuidesInfo.decOK
+theorem grid_guides_info_resave_stable : Stable GridGuidesInfo.codec := stable_of GridGuidesInfo.decOK GridGuidesInfo.rt.atEnd
+/-- frequency `I` and angle `i` (16.16): read and written with the same formats (`read_write_formats_compatible`) -/
+theorem halftone_screen_dec_encodable : DecOK HalftoneScreen.codec := HalftoneScreen.decOK
+theorem halftone_screen_resave_stable : Stable HalftoneScreen.codec := stable_of HalftoneScreen.decOK HalftoneScreen.rt.atEnd
+theorem halftone_screens_dec_encodable : DecOK HalftoneScreens.codec := HalftoneScreens.decOK
+theorem halftone_screens_resave_stable : Stable HalftoneScreens.codec := stable_of HalftoneScreens.decOK HalftoneScreens.rt
+theorem resource_integer_dec_encodable : DecOK Integer.codec := Integer.decOK
+theorem resource_integer_resave_stable : Stable Integer.codec := stable_of Integer.decOK Integer.rt.atEnd
+theorem layer_group_enabled_ids_dec_encodable : DecOK LayerGroupEnabledIDs.codec := LayerGroupEnabledIDs.decOK
+theorem layer_group_enabled_ids_resave_stable : Stable LayerGroupEnabledIDs.codec := stable_of LayerGroupEnabledIDs.decOK LayerGroupEnabledIDs.rt
+theorem layer_group_info_dec_encodable : DecOK LayerGroupInfo.codec := LayerGroupInfo.decOK
+theorem layer_group_info_resave_stable : Stable LayerGroupInfo.codec := stable_of LayerGroupInfo.decOK LayerGroupInfo.rt
+theorem layer_selection_ids_dec_encodable : DecOK LayerSelectionIDs.codec := LayerSelectionIDs.decOK
+theorem layer_selection_ids_resave_stable : Stable LayerSelectionIDs.codec := stable_of LayerSelectionIDs.decOK LayerSelectionIDs.rt.atEnd
+theorem resource_short_integer_dec_encodable : DecOK ShortInteger.codec := ShortInteger.decOK
+theorem resource_short_integer_resave_stable : Stable ShortInteger.codec := stable_of ShortInteger.decOK ShortInteger.rt.atEnd
+/-- read with `padding=2`, written with `padding=1`: a filler byte tolerated on read is not written back; the three clauses hold -/
+theorem pascal_string_dec_encodable : DecOK PascalString.codec := PascalString.decOK
+theorem pascal_string_resave_stable : Stable PascalString.codec := stable_of PascalString.decOK PascalString.rt
+theorem pixel_aspect_ratio_dec_encodable : DecOK PixelAspectRatio.codec := PixelAspectRatio.decOK
+theorem pixel_aspect_ratio_resave_stable : Stable PixelAspectRatio.codec := stable_of PixelAspectRatio.decOK PixelAspectRatio.rt.atEnd
+/-- the ninth flag is read when a byte is left; any non-zero flag byte is re-written as 1 -/
+theorem print_flags_dec_encodable : DecOK PrintFlags.codec := PrintFlags.decOK
+theorem print_flags_resave_stable : Stable PrintFlags.codec := stable_of PrintFlags.decOK PrintFlags.rt
+theorem print_flags_info_dec_encodable : DecOK PrintFlagsInfo.codec := PrintFlagsInfo.decOK
+theorem print_flags_info_resave_stable : Stable PrintFlagsInfo.codec := stable_of PrintFlagsInfo.decOK PrintFlagsInfo.rt.atEnd
+theorem print_scale_dec_encodable : DecOK PrintScale.codec := PrintScale.decOK
+theorem print_scale_resave_stable : Stable PrintScale.codec := stable_of PrintScale.decOK PrintScale.rt.atEnd
+theorem resolution_info_dec_encodable : DecOK ResolutionInfo.codec := ResolutionInfo.decOK
+theorem resolution_info_resave_stable : Stable ResolutionInfo.codec := stable_of ResolutionInfo.decOK ResolutionInfo.rt.atEnd
+/-- `fp.read(size)` is lenient: a declared size beyond the data is re-written as the size of what was read -/
+theorem thumbnail_resource_dec_encodable : DecOK Thumbnail.codec := Thumbnail.decOK
+theorem thumbnail_resource_resave_stable : Stable Thumbnail.codec := stable_of Thumbnail.decOK Thumbnail.rt.atEnd
+theorem transfer_function_dec_encodable : DecOK TransferFunction.codec := TransferFunction.decOK
+theorem transfer_function_resave_stable : Stable TransferFunction.codec := stable_of TransferFunction.decOK TransferFunction.rt.atEnd
+theorem transfer_functions_dec_encodable : DecOK TransferFunctions.codec := TransferFunctions.decOK
+theorem transfer_functions_resave_stable : Stable TransferFunctions.codec := stable_of TransferFunctions.decOK TransferFunctions.rt
+theorem url_item_dec_encodable : DecOK URLItem.codec := URLItem.decOK
+theorem url_item_resave_stable : Stable URLItem.codec := stable_of URLItem.decOK URLItem.rt.atEnd
+theorem url_list_dec_encodable : DecOK URLList.codec := URLList.decOK
+theorem url_list_resave_stable : Stable URLList.codec := stable_of URLList.decOK URLList.rt.atEnd
+theorem version_info_dec_encodable : DecOK VersionInfo.codec := VersionInfo.decOK
+theorem version_info_resave_stable : Stable VersionInfo.codec := stable_of VersionInfo.decOK VersionInfo.rt.atEnd
+theorem slice_v6_dec_encodable_partial (tb : Descriptor.Tables) (ht : Descriptor.TermsFour tb) : DecOKIf (SliceV6.codec tb) (fun x => optFits Descriptor.Block.KeysFull x.data) := SliceV6.decOKIf tb ht
+theorem slice_v6_resave_stable_partial (tb : Descriptor.Tables) (ht : Descriptor.TermsFour tb) : StableIf (SliceV6.codec tb) (fun x => optFits Descriptor.Block.KeysFull x.data) := stableIf_of (SliceV6.decOKIf tb ht) (SliceV6.rt tb)
+/-- besides the descriptor keys: C01's (F) clause `chainOK` (a slice without descriptor followed by a slice whose id is 16) -/
+theorem slices_v6_dec_encodable_partial (tb : Descriptor.Tables) (ht : Descriptor.TermsFour tb) : DecOKIf (SlicesV6.codec tb) SlicesV6.ResaveOK := SlicesV6.decOKIf tb ht
+theorem slices_v6_resave_stable_partial (tb : Descriptor.Tables) (ht : Descriptor.TermsFour tb) : StableIf (SlicesV6.codec tb) SlicesV6.ResaveOK := stableIf_of (SlicesV6.decOKIf tb ht) (SlicesV6.rt tb)
+theorem slices_dec_encodable_partial (tb : Descriptor.Tables) (ht : Descriptor.TermsFour tb) : DecOKIf (Slices.codec tb) Slices.ResaveOK := Slices.decOKIf tb ht
+theorem slices_resave_stable_partial (tb : Descriptor.Tables) (ht : Descriptor.TermsFour tb) : StableIf (Slices.codec tb) Slices.ResaveOK := stableIf_of (Slices.decOKIf tb ht) (Slices.rt tb)
+theorem descriptor_resource_dec_encodable_partial (tb : Descriptor.Tables) (ht : Descriptor.TermsFour tb) : DecOKIf (DescriptorResource.codec tb) Descriptor.Block.KeysFull := DescriptorResource.decOKIf tb ht
+theorem descriptor_resource_resave_stable_partial (tb : Descriptor.Tables) (ht : Descriptor.TermsFour tb) : StableIf (DescriptorResource.codec tb) Descriptor.Block.KeysFull := stableIf_of (DescriptorResource.decOKIf tb ht) (DescriptorResource.rt tb).atEnd
+
+/-! ### unit 8: adjustments -/
+
+theorem brightness_contrast_dec_encodable : DecOK BrightnessContrast.codec := BrightnessContrast.decOK
+theorem brightness_contrast_resave_stable : Stable BrightnessContrast.codec := stable_of BrightnessContrast.decOK BrightnessContrast.rt.atEnd
+theorem color_balance_dec_encodable : DecOK ColorBalance.codec := ColorBalance.decOK
+theorem color_balance_resave_stable : Stable ColorBalance.codec := stable_of ColorBalance.decOK ColorBalance.rt.atEnd
+theorem color_lookup_dec_encodable_partial (tb : Descriptor.Tables) (ht : Descriptor.TermsFour tb) (pad : Nat) : DecOKIf (ColorLookup.codec tb pad) Descriptor.Block2.KeysFull := ColorLookup.decOKIf tb ht pad
+theorem color_lookup_resave_stable_partial (tb : Descriptor.Tables) (ht : Descriptor.TermsFour tb) (pad : Nat) : StableIf (ColorLookup.codec tb pad) Descriptor.Block2.KeysFull := stableIf_of (ColorLookup.decOKIf tb ht pad) (ColorLookup.rt tb pad).atEnd
+theorem channel_mixer_dec_encodable : DecOK ChannelMixer.codec := ChannelMixer.decOK
+theorem channel_mixer_resave_stable : Stable ChannelMixer.codec := stable_of ChannelMixer.decOK ChannelMixer.rt
+/-- the flag byte is read as a truth value; for version 1 the extra marker is kept only when its read does not run out of data -/
+theorem curves_dec_encodable : DecOK Curves.codec := Curves.decOK
+theorem curves_resave_stable : Stable Curves.codec := stable_of Curves.decOK Curves.rt
+theorem gradient_map_dec_encodable : DecOK GradientMap.codec := GradientMap.decOK
+theorem gradient_map_resave_stable : Stable GradientMap.codec := stable_of GradientMap.decOK GradientMap.rt.atEnd
+theorem color_stop_dec_encodable : DecOK ColorStop.codec := ColorStop.decOK
+theorem color_stop_resave_stable : Stable ColorStop.codec := stable_of ColorStop.decOK ColorStop.rt.atEnd
+theorem transparency_stop_dec_encodable : DecOK TransparencyStop.codec := TransparencyStop.decOK
+theorem transparency_stop_resave_stable : Stable TransparencyStop.codec := stable_of TransparencyStop.decOK TransparencyStop.rt.atEnd
+theorem exposure_dec_encodable (pad : Nat) : DecOK (Exposure.codec pad) := Exposure.decOK pad
+theorem exposure_resave_stable (pad : Nat) : Stable (Exposure.codec pad) := stable_of (Exposure.decOK pad) (Exposure.rt pad).atEnd
+theorem hue_saturation_dec_encodable : DecOK HueSaturation.codec := HueSaturation.decOK
+theorem hue_saturation_resave_stable : Stable HueSaturation.codec := stable_of HueSaturation.decOK HueSaturation.rt.atEnd
+/-- a `Lvls` trailer whose count is below 29 is re-written with the count 29 -/
+theorem levels_dec_encodable : DecOK Levels.codec := Levels.decOK
+theorem levels_resave_stable : Stable Levels.codec := stable_of Levels.decOK Levels.rt
+theorem level_record_dec_encodable : DecOK LevelRecord.codec := LevelRecord.decOK
+theorem level_record_resave_stable : Stable LevelRecord.codec := stable_of LevelRecord.decOK LevelRecord.rt.atEnd
+theorem photo_filter_dec_encodable : DecOK PhotoFilter.codec := PhotoFilter.decOK
+theorem photo_filter_resave_stable : Stable PhotoFilter.codec := stable_of PhotoFilter.decOK PhotoFilter.rt.atEnd
+theorem selective_color_dec_encodable : DecOK SelectiveColor.codec := SelectiveColor.decOK
+theorem selective_color_resave_stable : Stable SelectiveColor.codec := stable_of SelectiveColor.decOK SelectiveColor.rt.atEnd
+
+/-! ### unit 9: vector data -/
+
+theorem path_record_dec_encodable : DecOK PItem.codec := PItem.decOK
+theorem path_record_resave_stable : Stable PItem.codec := stable_of PItem.decOK PItem.rt.atEnd
+/-- `Path` with the paddings its callers pass (1, 4) -/
+theorem path_dec_encodable (pad : Nat) (hp : 0 < pad ∧ pad ≤ 26) : DecOK (Path.codec pad) := Path.decOK pad hp
+theorem path_resave_stable (pad : Nat) (hp : 0 < pad ∧ pad ≤ 26) : Stable (Path.codec pad) := stable_of (Path.decOK pad hp) (Path.rt pad)
+theorem vector_mask_setting_dec_encodable : DecOK VectorMaskSetting.codec := VectorMaskSetting.decOK
+theorem vector_mask_setting_resave_stable : Stable VectorMaskSetting.codec := stable_of VectorMaskSetting.decOK VectorMaskSetting.rt
+theorem vector_stroke_content_setting_dec_encodable_partial (tb : Descriptor.Tables) (ht : Descriptor.TermsFour tb) (pad : Nat) : DecOKIf (VectorStrokeContentSetting.codec tb pad) VectorStrokeContentSetting.KeysFull := VectorStrokeContentSetting.decOKIf tb ht pad
+theorem vector_stroke_content_setting_resave_stable_partial (tb : Descriptor.Tables) (ht : Descriptor.TermsFour tb) (pad : Nat) : StableIf (VectorStrokeContentSetting.codec tb pad) VectorStrokeContentSetting.KeysFull := stableIf_of (VectorStrokeContentSetting.decOKIf tb ht pad) (VectorStrokeContentSetting.rt tb pad).atEnd
+theorem descriptor_payload_dec_encodable_partial (tb : Descriptor.Tables) (ht : Descriptor.TermsFour tb) (pad : Nat) : DecOKIf (DescriptorPayload.codec tb pad) Descriptor.Block.KeysFull := DescriptorPayload.decOKIf tb ht pad
+theorem descriptor_payload_resave_stable_partial (tb : Descriptor.Tables) (ht : Descriptor.TermsFour tb) (pad : Nat) : StableIf (DescriptorPayload.codec tb pad) Descriptor.Block.KeysFull := stableIf_of (DescriptorPayload.decOKIf tb ht pad) (DescriptorPayload.rt tb pad).atEnd
+theorem descriptor2_payload_dec_encodable_partial (tb : Descriptor.Tables) (ht : Descriptor.TermsFour tb) (pad : Nat) : DecOKIf (Descriptor2Payload.codec tb pad) Descriptor.Block2.KeysFull := Descriptor2Payload.decOKIf tb ht pad
+theorem descriptor2_payload_resave_stable_partial (tb : Descriptor.Tables) (ht : Descriptor.TermsFour tb) (pad : Nat) : StableIf (Descriptor2Payload.codec tb pad) Descriptor.Block2.KeysFull := stableIf_of (Descriptor2Payload.decOKIf tb ht pad) (Descriptor2Payload.rt tb pad).atEnd
+
+/-! ### unit 10: filter effects -/
+
+theorem filter_effect_channel_dec_encodable : DecOK FEChannel.codec := FEChannel.decOK
+theorem filter_effect_channel_resave_stable : Stable FEChannel.codec := stable_of FEChannel.decOK FEChannel.rt.atEnd
+theorem filter_effect_extra_dec_encodable : DecOK FEExtra.codec := FEExtra.decOK
+theorem filter_effect_extra_resave_stable : Stable FEExtra.codec := stable_of FEExtra.decOK FEExtra.rt.atEnd
+/-- the side condition is the 8-byte length field of the re-encoded body -/
+theorem filter_effect_dec_encodable_partial : DecOKIf FilterEffect.codec FilterEffect.LenFits := FilterEffect.decOKIf
+theorem filter_effect_resave_stable_partial : StableIf FilterEffect.codec FilterEffect.LenFits := stableIf_of FilterEffect.decOKIf FilterEffect.rt
+theorem filter_effects_dec_encodable_partial : DecOKIf FilterEffects.codec FilterEffects.LenFits := FilterEffects.decOKIf
+theorem filter_effects_resave_stable_partial : StableIf FilterEffects.codec FilterEffects.LenFits := stableIf_of FilterEffects.decOKIf FilterEffects.rt
+
+/-! ### units 2-6: element classes, fixed-layout tagged-block payloads, effects, patterns, linked layers, descriptor wrappers -/
+
+theorem empty_element_dec_encodable : DecOK EmptyElement.codec := EmptyElement.decOK
+theorem empty_element_resave_stable : Stable EmptyElement.codec := stable_of EmptyElement.decOK EmptyElement.rt.atEnd
+theorem numeric_element_dec_encodable : DecOK NumericElement.codec := NumericElement.decOK
+theorem numeric_element_resave_stable : Stable NumericElement.codec := stable_of NumericElement.decOK NumericElement.rt.atEnd
+theorem integer_element_dec_encodable : DecOK IntegerElement.codec := IntegerElement.decOK
+theorem integer_element_resave_stable : Stable IntegerElement.codec := stable_of IntegerElement.decOK IntegerElement.rt.atEnd
+/-- `try: read_fmt("H2x") except IOError: read_fmt("H")`: a 2-byte payload is re-written with the filler (4 bytes); the three clauses hold -/
+theorem short_integer_element_dec_encodable : DecOK ShortIntegerElement.codec := ShortIntegerElement.decOK
+theorem short_integer_element_resave_stable : Stable ShortIntegerElement.codec := stable_of ShortIntegerElement.decOK ShortIntegerElement.rt.atEnd
+theorem byte_element_dec_encodable : DecOK ByteElement.codec := ByteElement.decOK
+theorem byte_element_resave_stable : Stable ByteElement.codec := stable_of ByteElement.decOK ByteElement.rt.atEnd
+theorem boolean_element_dec_encodable : DecOK BooleanElement.codec := BooleanElement.decOK
+theorem boolean_element_resave_stable : Stable BooleanElement.codec := stable_of BooleanElement.decOK BooleanElement.rt.atEnd
+/-- with the paddings the containers pass -/
+theorem string_element_dec_encodable (pw pr : Nat) (hp : pr = 1 ∨ pr = pw) (hw : pw ≠ 0) : DecOK (StringElement.codec pw pr) := stringElement_decOK pw pr hp hw
+theorem string_element_resave_stable (pw pr : Nat) (hp : pr = 1 ∨ pr = pw) (hw : pw ≠ 0) : Stable (StringElement.codec pw pr) := stable_of (stringElement_decOK pw pr hp hw) (StringElement.rt pw pr).atEnd
+theorem color_dec_encodable : DecOK Color.codec := Color.decOK
+theorem color_resave_stable : Stable Color.codec := stable_of Color.decOK Color.rt.atEnd
+theorem bytes_dec_encodable : DecOK BytesElement.codec := BytesElement.decOK
+theorem bytes_resave_stable : Stable BytesElement.codec := stable_of BytesElement.decOK BytesElement.rt
+theorem sheet_color_setting_dec_encodable : DecOK SheetColorSetting.codec := SheetColorSetting.decOK
+theorem sheet_color_setting_resave_stable : Stable SheetColorSetting.codec := stable_of SheetColorSetting.decOK SheetColorSetting.rt.atEnd
+theorem reference_point_dec_encodable : DecOK ReferencePoint.codec := ReferencePoint.decOK
+theorem reference_point_resave_stable : Stable ReferencePoint.codec := stable_of ReferencePoint.decOK ReferencePoint.rt.atEnd
+/-- 4-7 trailing bytes that are neither signature nor key are not written back -/
+theorem section_divider_setting_dec_encodable : DecOK SectionDividerSetting.codec := SectionDividerSetting.decOK
+theorem section_divider_setting_resave_stable : Stable SectionDividerSetting.codec := stable_of SectionDividerSetting.decOK SectionDividerSetting.rt
+theorem user_mask_dec_encodable : DecOK UserMask.codec := UserMask.decOK
+theorem user_mask_resave_stable : Stable UserMask.codec := stable_of UserMask.decOK UserMask.rt.atEnd
+theorem filter_mask_dec_encodable : DecOK FilterMask.codec := FilterMask.decOK
+theorem filter_mask_resave_stable : Stable FilterMask.codec := stable_of FilterMask.decOK FilterMask.rt.atEnd
+theorem channel_blending_restrictions_dec_encodable : DecOK ChannelBlendingRestrictionsSetting.codec := ChannelBlendingRestrictionsSetting.decOK
+theorem channel_blending_restrictions_resave_stable : Stable ChannelBlendingRestrictionsSetting.codec := stable_of ChannelBlendingRestrictionsSetting.decOK ChannelBlendingRestrictionsSetting.rt
+theorem pixel_source_data2_dec_encodable (pad : Nat) (hp : pad = 1 ∨ pad = 2 ∨ pad = 4) : DecOK (PixelSourceData2.codec pad) := PixelSourceData2.decOK pad hp
+theorem pixel_source_data2_resave_stable (pad : Nat) (hp : pad = 1 ∨ pad = 2 ∨ pad = 4) : Stable (PixelSourceData2.codec pad) := stable_of (PixelSourceData2.decOK pad hp) (PixelSourceData2.rt pad)
+theorem metadata_setting_dec_encodable_partial (tb : Descriptor.Tables) (ht : Descriptor.TermsFour tb) : DecOKIf (MetadataSetting.codec tb) (MetadataSetting.ResaveOK tb) := MetadataSetting.decOKIf tb ht
+theorem metadata_setting_resave_stable_partial (tb : Descriptor.Tables) (ht : Descriptor.TermsFour tb) : StableIf (MetadataSetting.codec tb) (MetadataSetting.ResaveOK tb) := stableIf_of (MetadataSetting.decOKIf tb ht) (MetadataSetting.rt tb).atEnd
+theorem metadata_settings_dec_encodable_partial (tb : Descriptor.Tables) (ht : Descriptor.TermsFour tb) : DecOKIf (MetadataSettings.codec tb) (fun xs => ∀ x ∈ xs, MetadataSetting.ResaveOK tb x) := MetadataSettings.decOKIf tb ht
+theorem metadata_settings_resave_stable_partial (tb : Descriptor.Tables) (ht : Descriptor.TermsFour tb) : StableIf (MetadataSettings.codec tb) (fun xs => ∀ x ∈ xs, MetadataSetting.ResaveOK tb x) := stableIf_of (MetadataSettings.decOKIf tb ht) (MetadataSettings.rt tb).atEnd
+theorem annotation_dec_encodable_partial : DecOKIf Annotation.codec Annotation.ResaveOK := Annotation.decOKIf
+theorem annotation_resave_stable_partial : StableIf Annotation.codec Annotation.ResaveOK := stableIf_of Annotation.decOKIf Annotation.rt.atEnd
+/-- items whose declared length is 4 or less are skipped by the reader; the count is re-derived -/
+theorem annotations_dec_encodable_partial : DecOKIf Annotations.codec Annotations.ResaveOK := Annotations.decOKIf
+theorem annotations_resave_stable_partial : StableIf Annotations.codec Annotations.ResaveOK := stableIf_of Annotations.decOKIf Annotations.rt.atEnd
+theorem common_state_info_dec_encodable : DecOK CommonStateInfo.codec := CommonStateInfo.decOK
+theorem common_state_info_resave_stable : Stable CommonStateInfo.codec := stable_of CommonStateInfo.decOK CommonStateInfo.rt.atEnd
+theorem shadow_info_dec_encodable : DecOK ShadowInfo.codec := ShadowInfo.decOK
+theorem shadow_info_resave_stable : Stable ShadowInfo.codec := stable_of ShadowInfo.decOK ShadowInfo.rt.atEnd
+theorem outer_glow_info_dec_encodable : DecOK OuterGlowInfo.codec := OuterGlowInfo.decOK
+theorem outer_glow_info_resave_stable : Stable OuterGlowInfo.codec := stable_of OuterGlowInfo.decOK OuterGlowInfo.rt.atEnd
+theorem inner_glow_info_dec_encodable : DecOK InnerGlowInfo.codec := InnerGlowInfo.decOK
+theorem inner_glow_info_resave_stable : Stable InnerGlowInfo.codec := stable_of InnerGlowInfo.decOK InnerGlowInfo.rt.atEnd
+theorem bevel_info_dec_encodable : DecOK BevelInfo.codec := BevelInfo.decOK
+theorem bevel_info_resave_stable : Stable BevelInfo.codec := stable_of BevelInfo.decOK BevelInfo.rt.atEnd
+theorem solid_fill_info_dec_encodable : DecOK SolidFillInfo.codec := SolidFillInfo.decOK
+theorem solid_fill_info_resave_stable : Stable SolidFillInfo.codec := stable_of SolidFillInfo.decOK SolidFillInfo.rt.atEnd
+theorem effects_layer_dec_encodable_partial : DecOKIf EffectsLayer.codec EffectsLayer.LenFits := EffectsLayer.decOKIf
+theorem effects_layer_resave_stable_partial : StableIf EffectsLayer.codec EffectsLayer.LenFits := stableIf_of EffectsLayer.decOKIf EffectsLayer.rt.atEnd
+/-- a declared length below 23 makes the reader take everything that follows (`fp.read(negative)`); the re-encoded length is the side condition -/
+theorem virtual_memory_array_dec_encodable_partial : DecOKIf VMA.codec VMA.LenFits := VMA.decOKIf
+theorem virtual_memory_array_resave_stable_partial : StableIf VMA.codec VMA.LenFits := stableIf_of VMA.decOKIf VMA.rt.atEnd
+theorem virtual_memory_array_list_dec_encodable_partial : DecOKIf VMAL.codec VMAL.LenFits := VMAL.decOKIf
+theorem virtual_memory_array_list_resave_stable_partial : StableIf VMAL.codec VMAL.LenFits := stableIf_of VMAL.decOKIf VMAL.rt.atEnd
+theorem pattern_dec_encodable_partial : DecOKIf Pattern.codec (fun x => VMAL.LenFits x.data) := Pattern.decOKIf
+theorem pattern_resave_stable_partial : StableIf Pattern.codec (fun x => VMAL.LenFits x.data) := stableIf_of Pattern.decOKIf Pattern.rt.atEnd
+theorem patterns_dec_encodable_partial : DecOKIf Patterns.codec Patterns.LenFits := Patterns.decOKIf
+theorem patterns_resave_stable_partial : StableIf Patterns.codec Patterns.LenFits := stableIf_of Patterns.decOKIf Patterns.rt
+theorem linked_layer_dec_encodable_partial (tb : Descriptor.Tables) (ht : Descriptor.TermsFour tb) (pad : Nat) : DecOKIf (LinkedLayer.codec tb pad) LinkedLayer.KeysOK := LinkedLayer.decOKIf tb ht pad
+theorem linked_layer_resave_stable_partial (tb : Descriptor.Tables) (ht : Descriptor.TermsFour tb) (pad : Nat) : StableIf (LinkedLayer.codec tb pad) LinkedLayer.KeysOK := stableIf_of (LinkedLayer.decOKIf tb ht pad) (LinkedLayer.rt tb pad).atEnd
+theorem linked_layers_dec_encodable_partial (tb : Descriptor.Tables) (ht : Descriptor.TermsFour tb) : DecOKIf (LinkedLayers.codec tb) (LinkedLayers.ResaveOK tb) := LinkedLayers.decOKIf tb ht
+theorem linked_layers_resave_stable_partial (tb : Descriptor.Tables) (ht : Descriptor.TermsFour tb) : StableIf (LinkedLayers.codec tb) (LinkedLayers.ResaveOK tb) := stableIf_of (LinkedLayers.decOKIf tb ht) (LinkedLayers.rt tb)
+theorem smart_object_layer_data_dec_encodable_partial (tb : Descriptor.Tables) (ht : Descriptor.TermsFour tb) (pad : Nat) : DecOKIf (SmartObjectLayerData.codec tb pad) (fun x => x.data.KeysFull) := SmartObjectLayerData.decOKIf tb ht pad
+theorem smart_object_layer_data_resave_stable_partial (tb : Descriptor.Tables) (ht : Descriptor.TermsFour tb) (pad : Nat) : StableIf (SmartObjectLayerData.codec tb pad) (fun x => x.data.KeysFull) := stableIf_of (SmartObjectLayerData.decOKIf tb ht pad) (SmartObjectLayerData.rt tb pad).atEnd
+theorem placed_layer_data_dec_encodable_partial (tb : Descriptor.Tables) (ht : Descriptor.TermsFour tb) (pad : Nat) : DecOKIf (PlacedLayerData.codec tb pad) (fun x => x.warp.KeysFull) := PlacedLayerData.decOKIf tb ht pad
+theorem placed_layer_data_resave_stable_partial (tb : Descriptor.Tables) (ht : Descriptor.TermsFour tb) (pad : Nat) : StableIf (PlacedLayerData.codec tb pad) (fun x => x.warp.KeysFull) := stableIf_of (PlacedLayerData.decOKIf tb ht pad) (PlacedLayerData.rt tb pad).atEnd
+theorem type_tool_object_setting_dec_encodable_partial (tb : Descriptor.Tables) (ht : Descriptor.TermsFour tb) (pad : Nat) : DecOKIf (TypeToolObjectSetting.codec tb pad) (fun x => x.textData.KeysFull ∧ x.warp.KeysFull) := TypeToolObjectSetting.decOKIf tb ht pad
+theorem type_tool_object_setting_resave_stable_partial (tb : Descriptor.Tables) (ht : Descriptor.TermsFour tb) (pad : Nat) : StableIf (TypeToolObjectSetting.codec tb pad) (fun x => x.textData.KeysFull ∧ x.warp.KeysFull) := stableIf_of (TypeToolObjectSetting.decOKIf tb ht pad) (TypeToolObjectSetting.rt tb pad).atEnd
 
 end PsdVerif.C02
